@@ -120,8 +120,15 @@ def run(case):
     with warnings.catch_warnings(record=True) as wlist:
         warnings.simplefilter("always")
         try:
+            # equivalent spellings of the default propagation: True, the default function itself, and / or the
+            # propagation operation it would infer named explicitly (forwarded by rebin as a keyword)
+            from ndcube.utils.cube import propagate_rebin_uncertainties
+            spell = case["wseed"] % 4
+            prop_arg = spy if case["spy"] else (propagate_rebin_uncertainties if spell in (2, 3) else True)
+            pkw = {"propagation_operation": np.add} if (spell in (1, 3) and op != "prod" and not case["spy"]) else {}
+            tags.append(f"spelling={spell}")
             out = cube.rebin(tuple(bins), operation=OPS[op], operation_ignores_mask=case["ignores"],
-                             propagate_uncertainties=spy if case["spy"] else True)
+                             propagate_uncertainties=prop_arg, **pkw)
         except Exception as e:
             res["impl"]["err"] = err_kind(e)
             mark = ""
